@@ -219,11 +219,15 @@ def main():
     ap.add_argument('--stride', type=int, default=1, help='take every n-th mutant (sampling the site list, for a first pass)')
     ap.add_argument('--suite-only', action='store_true', help='python mutants: only run the pinned suite (phase 1)')
     ap.add_argument('--only-ids-from', help='run only the mutants that a --suite-only results file lists as passing the suite')
+    ap.add_argument('--only-killed-from', help='re-run (a --stride sample of) the mutants a results file lists as killed, to re-validate the kills on the current tree')
     ap.add_argument('--only-survivors-from', help='re-run only the mutants a results file lists as survivors (use with --all-fast)')
     args = ap.parse_args()
     muts = collect(args.targets)
     if args.only_survivors_from:
         keep = {r['id'] for r in map(json.loads, open(args.only_survivors_from)) if 'checks' in r and r['checks'] and not r.get('killed_by')}
+        muts = [m for m in muts if m['id'] in keep]
+    if args.only_killed_from:
+        keep = {r['id'] for r in map(json.loads, open(args.only_killed_from)) if r.get('killed_by')}
         muts = [m for m in muts if m['id'] in keep]
     if args.only_ids_from:
         keep = {r['id'] for r in map(json.loads, open(args.only_ids_from)) if r.get('suite_only') and not r.get('suite_killed')
